@@ -239,6 +239,13 @@ fn one_case(ctx: &Ctx, m: &mut Machine, md: &mut Model, rng: &mut Rng, page: u8,
     rf.im = rng.below(3) as u8;
     rf.memptr = rng.u16();
     let t = fixed_t.unwrap_or_else(|| pick_t(rng, md));
+    // now and then the CPU is already halted on a HALT (its 4-T NOP cycles are opcode fetches at PC
+    // and contended like any other)
+    let mut bytes = bytes;
+    if fixed_t.is_none() && rng.chance(1, 25) {
+        rf.halted = true;
+        bytes = vec![0x76];
+    }
     exec_case(ctx, m, md, page, opcode, &bytes, &rf, t, st, case_id, verbose);
 }
 
